@@ -90,7 +90,18 @@ func main() {
 		return os.Open(f)
 	})
 	overlay := map[string]string{}
-	for _, dir := range flag.Args() {
+	// "+/abs/file.go=rel/dir": an extra file that belongs to package rel/dir
+	extra := map[string][]string{}
+	var dirs []string
+	for _, a := range flag.Args() {
+		if strings.HasPrefix(a, "+") {
+			kv := strings.SplitN(a[1:], "=", 2)
+			extra[kv[1]] = append(extra[kv[1]], kv[0])
+			continue
+		}
+		dirs = append(dirs, a)
+	}
+	for _, dir := range dirs {
 		abs := filepath.Join(*repo, dir)
 		// "@/abs/dir=virtual/rel/dir": sources outside the repository that are
 		// injected at a virtual place inside it (harness packages)
@@ -123,6 +134,19 @@ func main() {
 			}
 			files = append(files, f)
 			names = append(names, n)
+			srcs = append(srcs, src)
+		}
+		for _, xf := range extra[dir] {
+			src, err := os.ReadFile(xf)
+			if err != nil {
+				die(err)
+			}
+			f, err := parser.ParseFile(fset, xf, src, parser.ParseComments)
+			if err != nil {
+				die(err)
+			}
+			files = append(files, f)
+			names = append(names, filepath.Base(xf))
 			srcs = append(srcs, src)
 		}
 		if len(files) == 0 {
